@@ -550,6 +550,9 @@ class Sim(object):
         if status in (st.CANCELING, st.CANCELED) and after in (st.CANCELING, st.CANCELED):
             self.h["cancel_req"] = True
             self.h["pause_req"] = False
+            if after == st.CANCELED and before != st.CANCELED:
+                # the request itself completed the workflow (nothing was in flight): feature for finding F25
+                self.h["canceled_by_request_at_rest"] = True
         res.extra["before"] = before
         res.extra["after"] = after
 
